@@ -247,6 +247,12 @@ def finish(ck):
         k = match_finding(findings, ck.id, v['sig'])
         (known if k else new).append((v, k))
     rdir = os.path.join(VERIF, 'replays', ck.id)
+    if os.path.isdir(rdir):
+        for old in os.listdir(rdir):          # replay files of earlier runs are stale
+            try:
+                os.unlink(os.path.join(rdir, old))
+            except OSError:
+                pass
     seen_known = set()
     for v, k in known:
         if k['signature'] in seen_known:
